@@ -45,6 +45,15 @@ def compute(x, items):
                 if b:
                     total += 1
     return total
+
+
+def pick(items):
+    out = []
+    for item in items:
+        if not item:
+            continue
+        out.append(item)
+    return out
 '''
 TS = '''function compute(x: number): number {
   console.log(x);
@@ -89,7 +98,7 @@ DIRECTIVE_VARIANT = {"py": "pyd", "ts": "tsd", "pyst": "pystd"}
 # validated on every run by the cases in neutral locations)
 RAW = {
     "py": {"magic-numbers": [16], "print-statements": [15], "nesting": [14], "srp": [1, 6], "method-property": [2],
-           "stateless-class": [6], "file-placement": [1], "dry": [1, 6, 10, 15, 18], "file-header": [1]},
+           "stateless-class": [6], "file-placement": [1], "dry": [1, 6, 10, 15, 18, 21, 26, 29], "file-header": [1], "pipeline": [27]},
     "ts": {"magic-numbers": [3], "print-statements": [2], "file-placement": [1], "dry": [1], "file-header": [1]},
     "pyst": {"stringly-typed": [2], "file-placement": [1], "file-header": [1]},
     "rs": {"magic-numbers": [3], "unwrap-abuse": [2], "clone-abuse": [12], "blocking-async": [7], "file-placement": [1]},
@@ -97,7 +106,7 @@ RAW = {
     # directive-carrying variants (same content oracle; validated in neutral locations): the dry block directive silences the blocks of
     # `compute`, the line directives silence exactly one finding each; a silenced file still counts as a duplicate partner
     "pyd": {"magic-numbers": [], "print-statements": [16], "nesting": [15], "srp": [1, 6], "method-property": [2],
-            "stateless-class": [6], "file-placement": [1], "dry": [1, 6], "file-header": [1]},
+            "stateless-class": [6], "file-placement": [1], "dry": [1, 6, 27, 30], "file-header": [1], "pipeline": [28]},
     "tsd": {"magic-numbers": [3], "print-statements": [], "file-placement": [1], "dry": [1], "file-header": [1]},
     "pystd": {"stringly-typed": [], "file-placement": [1], "file-header": [1]},
 }
@@ -105,7 +114,9 @@ RULE_ID = {"magic-numbers": "magic-numbers.numeric-literal", "print-statements":
            "nesting": "nesting.excessive-depth", "srp": "srp.violation", "unwrap-abuse": "unwrap-abuse.unwrap-call",
            "clone-abuse": "clone-abuse.clone-in-loop", "blocking-async": "blocking-async.fs-in-async",
            "method-property": "method-property.should-be-property", "stateless-class": "stateless-class.violation",
-           "file-placement": "file-placement", "file-header": "file-header.validation"}
+           "file-placement": "file-placement", "file-header": "file-header.validation",
+           "pipeline": "collection-pipeline.embedded-filter"}
+SECTION = {"pipeline": "collection-pipeline"}   # configuration section of a command when it differs from the command name
 CMDS = list(RULE_ID)           # the per-file commands drawn at random
 RULE_ID["dry"] = "dry.duplicate-code"   # cross-file: run on dedicated projects (gen_dry) whose duplicate partners are known
 RULE_ID["stringly-typed"] = "stringly-typed.repeated-validation"   # cross-file: dedicated projects (gen_st_project)
@@ -144,6 +155,7 @@ def special_parents() -> list[str]:
         names.append({".test.": "x.test.y", ".spec.": "a.spec.b", "test_": "test_data", "_test.": "unit_test.d"}.get(m, core))
     for m in t["rust_default_ignore"]:
         names.append(m.strip("/"))
+    names += [n for n in t.get("default_ignore_dir_names", []) if n not in names]
     names += ["lib", "src", "mod", "my_tests"] + EXTRA_PARENTS + DOTTED_DIRS[:2]
     out = []
     for n in names:
@@ -179,7 +191,10 @@ def gen_project(r) -> dict:
                 cfg["file-placement"] = {"directories": {d: {"deny": [{"pattern": ".*", "reason": "no files here"}]} for d in lint_ign[cmd]}}
         elif r.random() < 0.55:
             lint_ign[cmd] = r.sample(LINTER_PATS, r.choice([1, 1, 2]))
-            cfg.setdefault(cmd, {})["ignore"] = lint_ign[cmd]
+            cfg.setdefault(SECTION.get(cmd, cmd), {})["ignore"] = lint_ign[cmd]
+    # the pipeline rule falls back to the WHOLE configuration when it has no section of its own (the repo-level `ignore:` list would then
+    # double as its linter ignore list): the generated projects always have the section
+    cfg.setdefault(SECTION["pipeline"], {})
     repo_kind = r.choice(["none", "none", "file", "yaml", "both"])
     repo_pats, yaml_pats = [], []
     if repo_kind in ("file", "both"):
@@ -266,6 +281,15 @@ def gen_groups(seed: int, n_projects: int, n_special: int, n_inv: int) -> list[d
     return groups
 
 
+def _strip_linter_ignores(project: dict) -> None:
+    """drop every configured per-linter ignore list (file-placement rules stay): the linters' DEFAULT ignore lists are in force then"""
+    cfg = json.loads(project["extra"][".thailint.yaml"])
+    for cmd in [c for c in project["lint_ign"] if c != "file-placement"]:
+        cfg.get(SECTION.get(cmd, cmd), {}).pop("ignore", None)
+        del project["lint_ign"][cmd]
+    project["extra"][".thailint.yaml"] = json.dumps(cfg, indent=1)
+
+
 def gen_matrix(seed: int, n_projects: int) -> list[dict]:
     """in-process matrix: every special parent name x every command, absolute spelling plus one rotating other spelling"""
     specials = special_parents()
@@ -276,10 +300,24 @@ def gen_matrix(seed: int, n_projects: int) -> list[dict]:
     for i in range(n_projects):
         r = rng_for(seed, PROP, "matrix", i)
         project = gen_project(r)
+        if i % 2 == 1:   # every other matrix project runs under the default ignore lists of the linters (a configured list replaces them)
+            _strip_linter_ignores(project)
         have = {f["tpl"] for f in project["files"]}
         for lang in ("py", "ts", "rs", "pyd", "tsd"):   # every command must have something to find; every directive must occur
             if lang not in have:
                 project["files"].append({"rel": [r.choice(NEUTRAL_DIRS), "extra_" + lang + EXT[lang]], "tpl": lang})
+        # a file of every language directly in the project directory: its parent directory IS the project directory, whatever that is called
+        for lang in ("py", "ts", "rs"):
+            if not any(len(f["rel"]) == 1 and BASE_LANG.get(f["tpl"]) == lang for f in project["files"]):
+                project["files"].append({"rel": ["top_" + lang + EXT[lang]], "tpl": lang})
+        # a file inside every directory name that a default ignore pattern of some linter mentions (tests/, examples/, migrations/ ...):
+        # INSIDE the project these names must keep working for every spelling
+        from translator import items_pathloc
+        for k, dn in enumerate(items_pathloc.tables_for_harness().get("default_ignore_dir_names", [])):
+            lang = ("rs", "py", "ts")[k % 3]
+            rel = [dn, "in_" + lang + EXT[lang]]
+            if not any(f["rel"][:1] == [dn] for f in project["files"]) and not any(f["rel"] == [dn] for f in project["files"]):
+                project["files"].append({"rel": rel, "tpl": lang})
         dry_project = gen_dry_project(r)
         st_project = gen_st_project(r)
         names = [r.choice(NEUTRAL_PARENTS)] + specials
@@ -303,13 +341,14 @@ def gen_matrix(seed: int, n_projects: int) -> list[dict]:
                         inv["cwd"] = "proj"
                 invs.append(inv)
             parents = [nm] if r.random() < 0.7 else [nm, r.choice(NEUTRAL_PARENTS)]
-            # every third location: the special name is the project directory's OWN name (under a neutral parent); otherwise the project is
-            # called proj or has a dotted name (a directory whose name has a "suffix" is still a directory)
+            # every other location: the special name is the project directory's OWN name (under a neutral parent) - with two matrix projects
+            # every name occurs once above the project and once as the project; otherwise the project is called proj or has a dotted name
+            # (a directory whose name has a "suffix" is still a directory)
             pname = "proj"
-            if (i + li) % 3 == 1 and nm != ".git":
+            if (i + li) % 2 == 1 and nm != ".git":
                 parents, pname = [r.choice(NEUTRAL_PARENTS)], nm
-            elif (i + li) % 3 == 2:
-                pname = DOTTED_DIRS[(i + li // 3) % len(DOTTED_DIRS)]
+            elif (li // 2) % 2 == 1:
+                pname = DOTTED_DIRS[(i + li // 4) % len(DOTTED_DIRS)]
             groups.append({"id": f"m{i}.{li}", "via": "api", "project": project, "loc": {"parents": parents, "name": pname}, "invs": invs})
             # the same location through the process-pool path (lint_files_parallel / lint_directory_parallel, 2 workers): the
             # parallel run must report what the specification says for every spelling
@@ -351,13 +390,16 @@ def gen_dry_project(r, n_min: int = 6) -> dict:
         project["lint_ign"]["dry"] = r.sample(["lib/", "tests/", "src/", "test", "mod", "/src/", "proj/", "ok/", "util", "build/"], r.choice([1, 2]))
         cfg["dry"]["ignore"] = project["lint_ign"]["dry"]
     j = 0
+    def lacks(tpl):
+        return not any(f["tpl"] == tpl for f in project["files"])
     while (len(project["files"]) < n_min or sum(BASE_LANG[f["tpl"]] == "py" for f in project["files"]) < 2
-           or sum(BASE_LANG[f["tpl"]] == "ts" for f in project["files"]) < 2):
-        lang = ["py", "ts"][j % 2]
+           or sum(BASE_LANG[f["tpl"]] == "ts" for f in project["files"]) < 2 or lacks("pyd") or lacks("py")):
+        # every dry project has a plain Python file and one that carries the `# dry: ignore-block` directive (its remaining blocks are
+        # still reported, and it stays a partner of the others)
+        lang = "py" if lacks("pyd") or lacks("py") else ["py", "ts"][j % 2]
         dirs = [r.choice(NEUTRAL_DIRS + SPECIAL_DIRS) for _ in range(r.choice([1, 1, 2]))]
-        # every other Python filler carries the `# dry: ignore-block` directive (its remaining blocks are still reported)
-        project["files"].append({"rel": dirs + [f"{r.choice(STEMS[lang])}{j}{EXT[lang]}"],
-                                 "tpl": DIRECTIVE_VARIANT[lang] if r.random() < (0.5 if lang == "py" else 0.25) else lang})
+        tpl = "pyd" if lacks("pyd") else "py" if lacks("py") else (DIRECTIVE_VARIANT[lang] if r.random() < (0.5 if lang == "py" else 0.25) else lang)
+        project["files"].append({"rel": dirs + [f"{r.choice(STEMS[lang])}{j}{EXT[lang]}"], "tpl": tpl})
         j += 1
     project["extra"] = {".thailint.yaml": json.dumps(cfg, indent=1)}
     project["root_pats"] = []
@@ -382,13 +424,14 @@ def gen_st_project(r, n_min: int = 5) -> dict:
     files, seen = [], set()
     while len(files) < n_min:
         tpl = "pyst" if len(files) < max(4, n_min - 2) else r.choice(["pyst", "ts", "rs"])
+        force_directive = tpl == "pyst" and len(files) == 1   # every project has one file whose finding a line directive silences
         dirs = [r.choice(NEUTRAL_DIRS + ["tests", "test", "fixtures", "my_tests", "build", "examples"]) for _ in range(r.choice([0, 1, 1, 2]))]
         stem = r.choice(["mod", "util", "conftest", "mod_test", "helper", "check", "a.test"]) if tpl == "pyst" else r.choice(STEMS[tpl])
         rel = dirs + [stem + (str(len(files)) if r.random() < 0.5 and stem != "conftest" else "") + EXT[tpl]]
         if tuple(rel) in seen or any(tuple(rel[:k]) in seen for k in range(1, len(rel))) or any(x[:len(rel)] == tuple(rel) for x in seen):
             continue
         seen.add(tuple(rel))
-        files.append({"rel": rel, "tpl": DIRECTIVE_VARIANT[tpl] if tpl in DIRECTIVE_VARIANT and r.random() < 0.3 else tpl})
+        files.append({"rel": rel, "tpl": DIRECTIVE_VARIANT[tpl] if tpl in DIRECTIVE_VARIANT and (force_directive or r.random() < 0.25) else tpl})
     base["extra"][".thailint.yaml"] = json.dumps(cfg, indent=1)
     return {"files": files, "extra": base["extra"], "lint_ign": lint_ign, "root_pats": base["root_pats"], "marker": base["marker"]}
 
@@ -779,8 +822,8 @@ def run(tier: str, seed: int, replay: str | None = None) -> int:
     _merge_known(chk)
     chk.rule = ("seeded random projects (3-6 Python/TypeScript/Rust files from fixed templates in neutral and marker-named directories, "
                 "per-linter ignore lists, repo-level ignore patterns in .thailintignore / .thailint.yaml) copied under parents named after every "
-                "built-in excluded directory, every test-marker substring and neutral names; the real CLI (--format json) is invoked for each of 10 "
-                "linter commands with absolute / relative / dot spellings of directory and file targets from five kinds of working directory "
+                "built-in excluded directory, every test-marker substring and neutral names; the real CLI (--format json) is invoked for each of 12 "
+                "per-file linter commands with absolute / relative / dot spellings of directory and file targets from five kinds of working directory "
                 "(project, parent, grandparent, unrelated directory with its own .thailintignore, neutral). The full "
                 "matrix of every special parent name x every command is additionally run in-process through the same functions the CLI commands call "
                 "(setup_base_orchestrator + execute_linting_on_paths after chdir), including working directories strictly inside the project "
